@@ -191,6 +191,9 @@ Definition judge_getitem (c : gcase) : Z :=
   let '(fmt, unsigned, input, ix, out, npout) := c in
   match sarr_shape input, sarr_flat input with
   | Some sh, Some flat =>
+    (* the array being indexed must itself be in canonical / self-consistent form, however it was produced
+       (clause 15: a well-formedness failure of the PRODUCER, e.g. a repeated entry inside a GCXS row) *)
+    if negb (sarr_wfb input) then 6 + 10 * 15 else
     let k := spec_kind input out sh flat ix in
     let cl := clause_of fmt unsigned sh ix in
     (* the Spec itself against NumPy (kind 9), inside the grammar *)
